@@ -38,7 +38,7 @@ def main():
     except FactsError as ex:
         # fail closed: without facts nothing is decided
         print("hlv: cannot extract facts from /repo: %s" % ex)
-        rep = os.path.join(common.VERIF, "reports", "%s-facts.json" % a.prop)
+        rep = os.path.join(os.environ.get("HLV_OUT") or common.VERIF, "reports", "%s-facts.json" % a.prop)
         os.makedirs(os.path.dirname(rep), exist_ok=True)
         json.dump({"rule": "FACTS", "message": str(ex)}, open(rep, "w"))
         print("VIOLATION property=%s replay=%s" % (a.prop, rep))
